@@ -16,7 +16,8 @@ def sh(cmd, cwd, env=None, timeout=3000):
 def main():
     pid = sys.argv[1]
     checks = sys.argv[2:] or [pid]
-    wt, out = "/tmp/wt/" + pid, "/tmp/wt/out_" + pid
+    base = os.environ.get("SEED_BASE", "/tmp/wt")
+    wt, out = base + "/" + pid, base + "/out_" + pid
     env = {"PYTHONPATH": wt + "/blackbird_python"}
     rec = {"property": pid}
     # the worktree is brought to exactly HEAD + patch.diff (git stash is shared between worktrees, so it is not used)
@@ -36,7 +37,7 @@ def main():
     rec["confirmed"] = (rc1 != 0 and rc0 == 0 and "467 passed" in rec["tests_with_change"] and "21 failed" in rec["tests_with_change"])
     res = {}
     for c in checks:
-        scratch_out = "/tmp/wt/vout_%s_%s" % (pid, c)
+        scratch_out = base + "/vout_%s_%s" % (pid, c)
         shutil.rmtree(scratch_out, ignore_errors=True)
         rc, o = sh("./check %s --tier quick" % c, "/verif", {"VERIF_REPO": wt, "VERIF_OUT": scratch_out})
         viol = [l for l in o.splitlines() if l.startswith("VIOLATION")]
